@@ -335,7 +335,7 @@ func checkC09(tier, replay string) int {
 				kinds := faultKinds(k.typ)
 				if k.typ == "panos" {
 					if strings.HasPrefix(e.Raw, "commit") {
-						kinds = append(kinds, "commit-fail")
+						kinds = append(kinds, "commit-fail", "commit-nojob")
 					}
 					if strings.HasPrefix(e.Raw, "op show job") {
 						kinds = append(kinds, "job-fail")
